@@ -274,8 +274,8 @@ def vtimezone_text(z, tzid='Test/Zone', first_year=1990, order='SD', as_rdate_ye
     def comp(kind, rule, local_secs, off_from, off_to, name):
         _, m, w, d = rule
         onset = D.datetime.combine(PZ.rule_date(first_year, rule), D.time()) + D.timedelta(seconds=local_secs)
-        lines = ['BEGIN:' + kind, 'TZOFFSETFROM:' + fmt_ical_offset(off_from), 'TZOFFSETTO:' + fmt_ical_offset(off_to), 'TZNAME:' + name,
-                 'DTSTART:' + onset.strftime('%Y%m%dT%H%M%S')]
+        lines = ['BEGIN:' + kind, 'TZOFFSETFROM:' + fmt_ical_offset(off_from), 'TZOFFSETTO:' + fmt_ical_offset(off_to)] + \
+                (['TZNAME:' + name] if name is not None else []) + ['DTSTART:' + onset.strftime('%Y%m%dT%H%M%S')]      # TZNAME is optional
         if as_rdate_years:
             dates = []
             for y in range(first_year + 1, first_year + as_rdate_years):
